@@ -14,7 +14,8 @@ import vlib  # noqa: E402
 
 # Extra engines run as additional obligations of a property's check (they are not properties of their own):
 # E2E = the composed end-to-end model of the ranking task (coq/E2E, notes/E2E.md) — obligations of C08.
-EXTRA = {"C08": ["e2e"]}
+# E2ECAP = the same composition with a BINDING per-batch cap, relational in the selections (notes/E2Ecap.md) — obligations of C07.
+EXTRA = {"C08": ["e2e"], "C07": ["e2ecap"]}
 
 
 def run_extra(run, name):
